@@ -1295,7 +1295,7 @@ class ElementAction(MosFile):
         Classify the MOS type and return an instance of the relevant class
         """
         ea = xml.find('roElementAction')
-        operation = ea.attrib['operation']
+        operation = ea.attrib.get('operation')
 
         # are there any itemID tags in element_target?
         try:
@@ -1304,7 +1304,10 @@ class ElementAction(MosFile):
             target_item = False
 
         # are there any itemID tags in element_source?
-        source_item = len(ea.find('element_source').findall('itemID')) > 0
+        try:
+            source_item = len(ea.find('element_source').findall('itemID')) > 0
+        except AttributeError:
+            raise UnknownMosFileType("Unable to determine MOS file type - roElementAction has no element_source")
 
         # use the combination of operation, target_item and source_item to
         # determine the subclass
@@ -1320,7 +1323,9 @@ class ElementAction(MosFile):
             ('SWAP', False, True): EAItemSwap,
             ('MOVE', False, False): EAStoryMove,
             ('MOVE', True, True): EAItemMove,
-        }[(operation, target_item, source_item)]
+        }.get((operation, target_item, source_item))
+        if subcls is None:
+            raise UnknownMosFileType("Unable to determine MOS file type - unsupported roElementAction")
         return subcls(xml)
 
     @property
